@@ -107,6 +107,9 @@ func c04Boundary(r *emit.Rng, t int, e int) float64 {
 	return math.Ldexp(1, k*w)
 }
 
+// every NativeHistogramMaxExemplars from 1 to 17, the default (0 -> 10) and the switched-off value
+var c04ExMaxAll = []int{-1, 0, 1, 2, 3, 4, 5, 6, 7, 8, 9, 10, 11, 12, 13, 14, 15, 16, 17}
+
 type c04Gen struct {
 	center, spread int
 }
@@ -336,13 +339,24 @@ type c04Result struct {
 }
 
 // c04Exec performs one operation on a real histogram (plain or a vec child) and records what a Write exposes.
+// c04ExLimit is the configured native exemplar limit (10 for 0) of the histogram(s) being driven; the
+// driver is sequential, so a package variable set by c04Run/c04RunVec suffices.
+var c04ExLimit int
+
+func c04SetExLimit(c c04Cfg) {
+	c04ExLimit = c.exMax
+	if c04ExLimit == 0 {
+		c04ExLimit = 10
+	}
+}
+
 func c04Exec(h *prometheus.VerifC04Hist, o *c04Op, nEx *int, out *c04Result) {
 	switch o.kind {
 	case opObs:
 		h.Observe(o.v)
 	case opObsEx:
 		*nEx++
-		if vals, capacity, enabled := h.ExemplarState(); enabled && o.v == o.v && len(vals) == capacity && capacity > 1 {
+		if vals, _, enabled := h.ExemplarState(); enabled && o.v == o.v && len(vals) >= c04ExLimit && c04ExLimit > 1 {
 			o.oracle = c04LogOracle(vals, o.v)
 		} else {
 			o.oracle = 0
@@ -379,6 +393,7 @@ func c04Exec(h *prometheus.VerifC04Hist, o *c04Op, nEx *int, out *c04Result) {
 // (who[i] = child of ops[i], -1 = the shared clock advances). Every child is afterwards compared with
 // its own model instance: its case holds its own operations plus all clock advances, in order.
 func c04RunVec(c c04Cfg, n int, who []int, ops []c04Op) (perOps [][]c04Op, res []c04Result) {
+	c04SetExLimit(c)
 	perOps = make([][]c04Op, n)
 	res = make([]c04Result, n)
 	done := make(chan bool, 1)
@@ -436,6 +451,7 @@ func c04RunVec(c c04Cfg, n int, who []int, ops []c04Op) (perOps [][]c04Op, res [
 }
 
 func c04Run(c c04Cfg, ops []c04Op) (res c04Result) {
+	c04SetExLimit(c)
 	done := make(chan c04Result, 1)
 	go func() {
 		var out c04Result
@@ -642,10 +658,12 @@ func runC04(c *cli.Ctx) error {
 	// exemplars: mostly ObserveWithExemplar
 	if err := c04Stream(c, r.Fork(), "exemplars", 250*c.Scale, func(r *emit.Rng) (c04Cfg, []string, []c04Op) {
 		cfg, tags := c04Config(r, r.Bool())
-		if r.Chance(2, 3) {
-			cfg.exMax = []int{1, 2, 3, 10, 0}[r.Intn(5)]
+		cfg.exMax = c04ExMaxAll[r.Intn(len(c04ExMaxAll))]
+		n := c04Len(r)
+		if lim := 3*cfg.exMax + 6; n < lim { // enough exemplar-carrying observations to overfill
+			n = lim
 		}
-		return cfg, append(tags, fmt.Sprintf("exmax:%d", cfg.exMax), fmt.Sprintf("exttl:%d", int64(cfg.exTTL))), c04Ops(r, cfg, c04Len(r), 60, 8, 10, 2)
+		return cfg, append(tags, fmt.Sprintf("exmax:%d", cfg.exMax), fmt.Sprintf("exttl:%d", int64(cfg.exTTL))), c04Ops(r, cfg, n, 60, 8, 10, 2)
 	}); err != nil {
 		return err
 	}
@@ -693,7 +711,7 @@ func runC04(c *cli.Ctx) error {
 		for i := 0; i < 90*c.Scale; i++ {
 			cfg, tags := c04Config(rr, rr.Bool())
 			if rr.Chance(2, 3) {
-				cfg.exMax = []int{1, 2, 3, 10, 0}[rr.Intn(5)]
+				cfg.exMax = c04ExMaxAll[rr.Intn(len(c04ExMaxAll))]
 			}
 			n := 2 + rr.Intn(2)
 			base := c04Ops(rr, cfg, 10+rr.Intn(70), 35, 10, 8, 3)
